@@ -59,7 +59,8 @@
   A push while the iterator stands AT THE END: `edit_refines_push_inside` (one iterator; `Inside` = it stands
   on a record that exists — what the repaired F16-ENDPUSH keeps true when `hostlist_next` answers NULL,
   `edit_refines_next_inside`), `edit_refines_push_end_next` (the next `hostlist_next` hands out the first
-  new host); `Inside` is carried through next / create / reset / push only, and for one iterator.
+  new host); `Inside` is carried through next / create / reset / push / remove (`edit_refines_remove_inside`;
+  while the list is not empty) — not through shift / pop / delete, and for one iterator only.
 -/
 import PdshVerif.Hostlist.LemmasFind
 import PdshVerif.Hostlist.LemmasUniq
@@ -269,6 +270,11 @@ theorem edit_refines_next_inside (cfg : Cfg) (hfx : cfg.fixEndPush = true) (e : 
     (fresh : Bool) (h : Ref cfg e p c fresh) (hin : Inside e) (a : Option Str) (e' : EL)
     (hn : itNext cfg e 0 = .ok (a, e')) : Inside e' :=
   next_keeps_inside cfg hfx e p c fresh h hin a e' hn
+
+/-- `hostlist_remove` (repaired D19) leaves the iterator inside the list, unless the list is empty afterwards -/
+theorem edit_refines_remove_inside (cfg : Cfg) (hfix : cfg.fixRemoveDepth = true) (e : EL) (p : EditSpec.PL) (c : Nat)
+    (h : Ref cfg e p c true) (e' : EL) (hr : itRemove cfg e 0 = .ok e') : Inside e' ∨ e'.ranges = [] :=
+  remove_keeps_inside cfg hfix e p c h e' hr
 
 /-- the iterator ran out, a record is pushed: the next `hostlist_next` hands out its first host -/
 theorem edit_refines_push_end_next (cfg : Cfg) (hfs : cfg.fixIterSuffix = true) (e : EL) (p : EditSpec.PL) (c : Nat)
